@@ -43,7 +43,7 @@ Definition held (t : thrower) : bool := match t with TJsInternal _ => false | _ 
 Definition obs_value (h : bool) (v : value) : vobs :=
   match v with
   | VPrim p => OPrim p
-  | VObj cls id => OObj cls id (h && N.eqb id 0) false false false
+  | VObj cls id => OObj (if N.leb 100 cls then cls - 100 else cls) id (h && N.eqb id 0) false false false
   | VGoErr id e => OObj 7 id (h && N.eqb id 0) (gerr_is 1 e) (gerr_is 2 e) (gerr_is 3 e)
   end.
 
